@@ -240,25 +240,27 @@ theorem object_case (h : TableOK st) (g : Nat) (ih : IHle st o re defs g) (ctx :
       simpa using hextra
 
 /-- own fields of a class: each declared member that is present is accepted, each required one is
-present (shared by the object and the allOf case) -/
+present (the allOf case; `R` is the required flag of a member, whatever its origin) -/
 theorem fields_ne_reject (h : TableOK st) (g : Nat) (ih : IHle st o re defs g)
-    (props : List (List Char × Schema)) (rq : List (List Char)) (kvs : List (List Char × Json)) (f : Nat)
+    (props : List (List Char × Schema)) (R : List Char × Schema → Bool)
+    (kvs : List (List Char × Json)) (f : Nat)
     (hps : Schema.propsInSubset props = true)
-    (hreq : ∀ k ∈ rq, hasKey kvs k = true)
+    (hreq : ∀ p ∈ props, R p = true → hasKey kvs p.1 = true)
     (hprops : ∀ p ∈ props, (match kvs.lookup p.1 with
       | some x => validJ re f defs p.2 x
       | none => true) = true) :
-    Tri.all ((trProps st o rq props).map (fun fld =>
+    Tri.all ((props.map (fun p => (p.1, R p, fieldCons st o p.2, tr st o .plain p.2))).map (fun fld =>
       match kvs.lookup fld.1 with
       | none => if fld.2.1 then (if isOpt fld.2.2.2 then .laxZone else .reject) else .accept
       | some x =>
         if x.isNull && !fld.2.1 && !isConst fld.2.2.2 then .accept
         else Tri.and (acceptsTy st re g (trDefs st o defs) fld.2.2.2 x) (checkCons st re fld.2.2.1 x)))
       ≠ .reject := by
-  rw [all_ne_reject, trProps_eq_map]
+  rw [all_ne_reject]
   intro t ht
   simp only [List.map_map, List.mem_map, Function.comp] at ht
   obtain ⟨p, hp, rfl⟩ := ht
+  have hrp := hreq p hp
   obtain ⟨nm, s⟩ := p
   simp only
   have hpx := hprops (nm, s) hp
@@ -266,11 +268,10 @@ theorem fields_ne_reject (h : TableOK st) (g : Nat) (ih : IHle st o re defs g)
   cases hl : kvs.lookup nm with
   | none =>
     simp only
-    cases hr : rq.contains nm with
+    cases hr : R (nm, s) with
     | false => simp
     | true =>
-      have : nm ∈ rq := by simpa using hr
-      have := hreq nm this
+      have := hrp hr
       simp [hasKey, hl] at this
   | some x =>
     simp only
@@ -308,7 +309,7 @@ theorem allOf_case (h : TableOK st) (hd : defsInSubset defs = true) (g : Nat)
       simp only [Option.map]
       exact ih g (Nat.le_refl _) f .top t (.obj kvs) (defs_lookup_inSubset hd hl) this
   have hder : acceptsTy st re (g + 1) (trDefs st o defs)
-      (.derived refs (trProps st o (req ++ xreq) props) .unset) (.obj kvs) ≠ .reject := by
+      (.derived refs (markReq xreq (trProps st o req props)) .unset) (.obj kvs) ≠ .reject := by
     simp only [acceptsTy]
     refine and_ne_reject.mpr ⟨?_, ?_⟩
     · rw [all_ne_reject]
@@ -316,11 +317,13 @@ theorem allOf_case (h : TableOK st) (hd : defsInSubset defs = true) (g : Nat)
       simp only [List.mem_map] at ht
       obtain ⟨r, hr, rfl⟩ := ht
       exact hbase r hr
-    · refine fields_ne_reject st o re defs h g ih props (req ++ xreq) kvs f hps ?_ hprops
-      intro k hk
-      cases List.mem_append.mp hk with
-      | inl e => exact hreq k e
-      | inr e => exact hxreq k e
+    · rw [markReq_trProps]
+      refine fields_ne_reject st o re defs h g ih props _ kvs f hps ?_ hprops
+      intro p _ hR
+      simp only [Bool.or_eq_true, Bool.and_eq_true] at hR
+      rcases hR with hR | hR
+      · exact hreq p.1 (by simpa using hR.1)
+      · exact hxreq p.1 (by simpa using hR)
   cases ctx with
   | top => simpa only [tr] using hder
   | plain =>
